@@ -21,11 +21,63 @@ from lib_ratio import enc_ints
 # ----------------------------------------------------------------------------------------------- real-rich side
 
 
-def make_console(width):
+class _AsciiFile(io.StringIO):
+    """a text file whose encoding is not UTF-x, so `console.options.ascii_only` is true"""
+    encoding = "ascii"
+
+
+def make_console(width, env=None):
+    """env = {"legacy_windows": bool, "ascii": bool, "console_safe_box": bool} (default: none of them, safe_box True)"""
     from rich.console import Console
 
-    return Console(width=width, file=io.StringIO(), color_system=None, legacy_windows=False, force_terminal=False,
-                   _environ={}, emoji=False, highlight=False)
+    env = env or {}
+    return Console(width=width, file=_AsciiFile() if env.get("ascii") else io.StringIO(), color_system=None,
+                   legacy_windows=bool(env.get("legacy_windows")), safe_box=env.get("console_safe_box", True),
+                   force_terminal=False, _environ={}, emoji=False, highlight=False)
+
+
+class ControlCell:
+    """a cell that emits control segments (zero cells wide) around its text"""
+
+    def __init__(self, text):
+        self.text = text
+
+    def __rich_console__(self, console, options):
+        from rich.segment import Segment
+        from rich.text import Text
+
+        yield Segment.control("\x07")
+        yield Text(self.text)
+        yield Segment.control("\x1b[0m")
+
+    def __rich_measure__(self, console, max_width):
+        from rich.measure import Measurement
+        from rich.text import Text
+
+        return Measurement.get(console, Text(self.text), max_width)
+
+
+class CellBoom(Exception):
+    """what a raising cell raises"""
+
+
+class BoomCell:
+    """a cell whose renderable raises: when measured, when rendered, both, or only when rendered narrower than 3 cells"""
+
+    def __init__(self, mode):
+        self.mode = mode
+
+    def __rich_console__(self, console, options):
+        if self.mode in ("render", "both") or (self.mode == "narrow" and options.max_width < 3):
+            raise CellBoom(self.mode)
+        yield "ok"
+
+    def __rich_measure__(self, console, max_width):
+        from rich.measure import Measurement
+
+        if self.mode in ("measure", "both"):
+            raise CellBoom(self.mode)
+        return Measurement(2, 2)
 
 
 def build_cell(cs):
@@ -60,6 +112,12 @@ def build_cell(cs):
         for text in cs[1]:
             t.add_row(Text(text))
         return t
+    if kind == "st":
+        return Text(cs[1], style=cs[2])          # a text with its own style (and a styled span)
+    if kind == "ctl":
+        return ControlCell(cs[1])
+    if kind == "boom":
+        return BoomCell(cs[1])
     if kind == "none":
         return None
     raise ValueError(cs)
@@ -78,18 +136,33 @@ def build_table(spec):
         show_header=o.get("show_header", True), show_footer=o.get("show_footer", False), show_edge=o.get("show_edge", True),
         show_lines=o.get("show_lines", False), leading=o.get("leading", 0),
         title_justify=o.get("title_justify", "center"), caption_justify=o.get("caption_justify", "center"),
-        row_styles=o.get("row_styles"),
+        row_styles=o.get("row_styles"), safe_box=o.get("safe_box"),
     )
+    for k in ("style", "border_style", "header_style", "footer_style", "title_style", "caption_style"):
+        if k in o:
+            kw[k] = o[k]
     cols = spec["cols"]
     early = [c for c in cols if not c.get("late")]
     late = [c for c in cols if c.get("late")]
 
     def col_kw(c):
         return dict(justify=c.get("justify", "left"), overflow=c.get("overflow", "ellipsis"), width=c.get("width"),
-                    min_width=c.get("min_width"), max_width=c.get("max_width"), ratio=c.get("ratio"), no_wrap=c.get("no_wrap", False))
+                    min_width=c.get("min_width"), max_width=c.get("max_width"), ratio=c.get("ratio"), no_wrap=c.get("no_wrap", False),
+                    style=c.get("style"), header_style=c.get("header_style"), footer_style=c.get("footer_style"))
 
-    if spec.get("via_column_objects"):
-        t = Table(*[Column(header=build_cell(c["header"]), footer=build_cell(c["footer"]), **col_kw(c)) for c in early], **kw)
+    if spec.get("via_grid"):
+        # Table.grid(...): the classmethod's own defaults (no box, no header / footer / edge, collapse_padding, no pad_edge)
+        t = Table.grid(**{k: (tuple(v) if isinstance(v, list) else v) for k, v in spec["via_grid"].items()})
+        for c in early:
+            t.add_column(build_cell(c["header"]), build_cell(c["footer"]), **col_kw(c))
+    elif spec.get("via_column_objects"):
+        def obj_kw(c):
+            d = col_kw(c)
+            for k in ("style", "header_style", "footer_style"):
+                d[k] = d[k] or ""          # the dataclass default; add_column does the same `or ""`
+            return d
+
+        t = Table(*[Column(header=build_cell(c["header"]), footer=build_cell(c["footer"]), **obj_kw(c)) for c in early], **kw)
     else:
         t = Table(**kw)
         for c in early:
@@ -160,6 +233,7 @@ class Pool:
 
     def __init__(self, ctx, console, wtab):
         self.ctx, self.console, self.wtab = ctx, console, wtab
+        self.consoles = {}
         self.index = {}
         self.enc = []
         self.tab = []  # per oracle: list over w of (min, max, [lines]) or None
@@ -167,54 +241,63 @@ class Pool:
     def _add(self, key, entries):
         self.index[key] = len(self.enc)
         out = []
-        for e in entries:
-            if e is None:
-                out.append("!")
-            else:
-                mn, mx, lines = e
-                out.append(f"{mn} {mx}#{len(lines)}#" + "/".join(enc_str(l) for l in lines))
+        for m, lines in entries:
+            ms = "!" if m is None else f"{m[0]} {m[1]}"
+            ls = "!#" if lines is None else f"{len(lines)}#" + "/".join(enc_str(l) for l in lines)
+            out.append(ms + "#" + ls)
         self.enc.append("|".join(out))
         self.tab.append(entries)
         return self.index[key]
 
-    def cell(self, key, renderable, table, column):
+    def env_console(self, env):
+        k = tuple(sorted((env or {}).items()))
+        if k not in self.consoles:
+            self.consoles[k] = make_console(self.wtab, env)
+        return k, self.consoles[k]
+
+    def cell(self, key, renderable, table, column, env=None):
         from rich.cells import cell_len
         from rich.measure import Measurement
 
-        k = ("cell", key, column.justify, column.overflow, bool(column.no_wrap), table.highlight)
+        ek, console = self.env_console(env)
+        k = ("cell", key, column.justify, column.overflow, bool(column.no_wrap), table.highlight, ek)
         if k in self.index:
             return self.index[k]
-        console = self.console
         entries = []
         for w in range(self.wtab + 1):
+            # an entry the real code cannot produce is recorded as `raised` (None): the model then says the table raises too
             try:
                 m = Measurement.get(console, renderable, w) if w >= 1 else Measurement(0, 0)
-                opts = cell_options(console, table, column, w)
-                lines = [line_text(l) for l in console.render_lines(renderable, opts)]
-            except Exception as e:  # the oracle is undefined here; the model answers `unmodelled` if it asks
-                self.ctx.note("oracle_raises:" + type(e).__name__)
-                entries.append(None)
-                continue
+            except Exception as e:
+                self.ctx.note("oracle_raises:measure:" + type(e).__name__)
+                m = None
+            try:
+                lines = [line_text(l) for l in console.render_lines(renderable, cell_options(console, table, column, w))]
+            except Exception as e:
+                self.ctx.note("oracle_raises:render:" + type(e).__name__)
+                lines = None
             # the contract the theorems assume of a cell (render_lines pads/crops: C13; Measurement.get normalises)
-            self.ctx.check(all(cell_len(l) == w for l in lines), "oracle-contract:render_lines", (key, w),
-                           "console.render_lines returned a line whose cell length is not the requested width")
-            self.ctx.check(0 <= m.minimum <= m.maximum <= max(w, 0), "oracle-contract:Measurement.get", (key, w), f"Measurement.get gives {m}")
-            entries.append((m.minimum, m.maximum, lines))
+            if lines is not None:
+                self.ctx.check(all(cell_len(l) == w for l in lines), "oracle-contract:render_lines", (key, w),
+                               "console.render_lines returned a line whose cell length is not the requested width")
+            if m is not None:
+                self.ctx.check(0 <= m.minimum <= m.maximum <= max(w, 0), "oracle-contract:Measurement.get", (key, w), f"Measurement.get gives {m}")
+            entries.append((None if m is None else (m.minimum, m.maximum), lines))
         return self._add(k, entries)
 
-    def annotation(self, key, text, justify, table, incoming):
-        k = ("ann", key, justify, incoming.overflow, incoming.no_wrap, table.highlight)
+    def annotation(self, key, text, justify, table, incoming, env=None):
+        ek, console = self.env_console(env)
+        k = ("ann", key, justify, incoming.overflow, incoming.no_wrap, table.highlight, ek)
         if k in self.index:
             return self.index[k]
-        console = self.console
         entries = []
         for w in range(self.wtab + 1):
             try:
                 opts = annotation_options(console, table, incoming, w, justify)
-                entries.append((0, 0, plain_lines(list(console.render(text, opts)))))
+                entries.append(((0, 0), plain_lines(list(console.render(text, opts)))))
             except Exception as e:
-                self.ctx.note("oracle_raises:" + type(e).__name__)
-                entries.append(None)
+                self.ctx.note("oracle_raises:annotation:" + type(e).__name__)
+                entries.append(((0, 0), None))
         return self._add(k, entries)
 
     def encode(self):
@@ -276,6 +359,7 @@ def cell_specs(spec, table, ci):
 
 def encode_variant(flags, pool, console, table, avail, spec):
     incoming = incoming_options(console, spec)
+    env = spec.get("env") or {}
     """Variant request text for a real table + everything the direct evaluation needs (padded cells)."""
     ncols = len(table.columns)
     cols_enc = []
@@ -286,10 +370,12 @@ def encode_variant(flags, pool, console, table, avail, spec):
         padded.append(rs)
         ids = []
         keys = cell_specs(spec, table, ci)
-        assert len(keys) == len(rs), (keys, rs)
+        if len(keys) != len(rs):
+            # the table is not shaped as the spec says (add_row_rectangular reports that): anonymous, unshared oracle keys
+            keys = [("anon-x", ci, ri, len(rs)) for ri in range(len(rs))]
         for ri, r in enumerate(rs):
             pad = (r.top, r.right, r.bottom, r.left) if any(table.padding) else None
-            ids.append(pool.cell((repr(keys[ri]), pad), r, table, column))
+            ids.append(pool.cell((repr(keys[ri]), pad), r, table, column, spec.get("env")))
         n_body = len(column._cells)
         hdr = ids[0] if table.show_header else None
         ftr = ids[-1] if table.show_footer else None
@@ -300,14 +386,17 @@ def encode_variant(flags, pool, console, table, avail, spec):
     ti = ca = None
     t_ann = annotation_text(console, table, "title")
     if t_ann is not None:
-        ti = pool.annotation(("title", repr(table.title)), t_ann[0], t_ann[1], table, incoming)
+        ti = pool.annotation(("title", repr(table.title)), t_ann[0], t_ann[1], table, incoming, spec.get("env"))
     c_ann = annotation_text(console, table, "caption")
     if c_ann is not None:
-        ca = pool.annotation(("caption", repr(table.caption)), c_ann[0], c_ann[1], table, incoming)
+        ca = pool.annotation(("caption", repr(table.caption)), c_ann[0], c_ann[1], table, incoming, spec.get("env"))
     pt, pr, pb, pl = table.padding
     opts = " ".join([box_name(table.box), b(table.show_header), b(table.show_footer), b(table.show_edge), b(table.show_lines),
                      str(int(table.leading)), str(pt), str(pr), str(pb), str(pl), b(table.pad_edge), b(table.collapse_padding),
-                     b(table._expand), enc_opt(table.width), enc_opt(table.min_width), enc_opt(ti), enc_opt(ca)])
+                     b(table._expand), enc_opt(table.width), enc_opt(table.min_width), enc_opt(ti), enc_opt(ca),
+                     # Box.substitute(options, safe=pick_bool(table.safe_box, console.safe_box)): the table's own setting wins
+                     b(table.safe_box if table.safe_box is not None else env.get("console_safe_box", True)),
+                     b(env.get("legacy_windows")), b(env.get("ascii"))])
     rows = enc_ints([int(bool(r.end_section)) for r in table.rows])
     text = ";".join([" ".join(str(int(f)) for f in flags), str(avail), opts, rows, ",".join(cols_enc)])
     assert "\t" not in text and "@" not in text
@@ -324,17 +413,23 @@ def real_answer(console, table, options=None):
         meas = f"|M{m.minimum} {m.maximum}"
     except AssertionError:
         meas = "|Merr:AssertionError"
+    except CellBoom:
+        meas = "|Merr:CellRaises"
     except Exception as e:
         meas = "|Merr:Other:" + type(e).__name__
     try:
         widths = table._calculate_column_widths(console, max_width - table._extra_width)
         if options.max_width < 1:
             # Console.render returns at once ("no space to render anything"); the model is of Table.__rich_console__ itself
-            lines = plain_lines(list(table.__rich_console__(console, options)))
+            segments = list(table.__rich_console__(console, options))
         else:
-            lines = plain_lines(list(console.render(table, options)))
+            segments = list(console.render(table, options))
+        lines = plain_lines(segments)
+        real_answer.segments = segments
     except AssertionError:
         return "err:AssertionError" + meas, None, None
+    except CellBoom:
+        return "err:CellRaises" + meas, None, None
     except Exception as e:
         return "err:Other:" + type(e).__name__ + meas, None, None
     return "W" + enc_ints(widths) + "L" + enc_str_list(lines) + meas, widths, lines
@@ -346,7 +441,7 @@ def real_answer(console, table, options=None):
 def classify_rect(table, widths, line):
     """narrow classifier: box set, leading >= 2 and the over-wide line is the `mid` row repeated `leading` times."""
     if table.box is not None and table.leading >= 2:
-        mid = table.box.get_row(widths, "mid", edge=table.show_edge)
+        mid = table.box.get_row([max(0, w) for w in widths], "mid", edge=table.show_edge)
         if line == mid * table.leading and mid != "":
             return "table-leading-multi"
     return None
@@ -428,6 +523,16 @@ def evaluate(ctx, console, table, avail, widths, lines, padded, spec, text_cells
     fits_naturally = sum(first) <= max_width and not (table.expand and flexible)
     stable_cells = all(text_cells)
     no_col_min = all(c.min_width is None for c in table.columns)
+    # --- fixed_column_width: a column with an explicit width that keeps its natural width is exactly `width` plus ITS OWN padding
+    #     (left padding collapses for every column but the first — by POSITION in the table, however the column object got there)
+    _pt, _pr, _pb, _pl = table.padding
+    if not table.expand and table.min_width is None and sum(widths) <= max_width and sum(first) <= max_width and max_width >= 1:
+        for i, c in enumerate(table.columns):
+            if c.width is not None and c.width >= 0 and all(p >= 0 for p in table.padding):
+                left = max(0, _pl - _pr) if (table.collapse_padding and i > 0) else _pl
+                want = min(c.width + left + _pr, max_width) or 1
+                ctx.check(widths[i] == want, "fixed_column_width", spec,
+                          f"column {i} has width={c.width} and padding {left}+{_pr} but is {widths[i]} cells wide (widths {widths})")
     # --- table_expand_exact
     if in_domain and table.expand and (fits_naturally or (all_wrappable(table) and no_col_min and stable_cells and max_width >= ncols)):
         ok = sum(widths) == max_width
@@ -484,7 +589,8 @@ def evaluate(ctx, console, table, avail, widths, lines, padded, spec, text_cells
             p += w
         return True
 
-    cursor = 0
+    cursor = 1 if (edge and body) else 0     # the top edge is a line of its own (it can look exactly like a blank cell line)
+    row_pos = []    # per matched row: index of its first line in `body`
     row_exps = []   # per matched row: per column the lines found INSIDE that column's span of the real output
     ok_rows = rect_ok
     why = ""
@@ -510,6 +616,7 @@ def evaluate(ctx, console, table, avail, widths, lines, padded, spec, text_cells
             break
         cursor = found + h
         row_exps.append(exp)
+        row_pos.append(found)
     if ok_rows:
         for ln in body[cursor:]:
             if not rule_like(ln):
@@ -538,6 +645,125 @@ def evaluate(ctx, console, table, avail, widths, lines, padded, spec, text_cells
                 got = [ch for ch in shown if not ch.isspace()]
                 ctx.check(want == got, "fold_keeps_characters", (spec, ci, ri),
                           f"cell text {src!r} shows as {row_exps[ri][ci]!r} in column {ci} of width {widths[ci]}" + (" (nested folding table)" if nested else ""))
+    # --- styles
+    if ok_rows and getattr(real_answer, "segments", None) is not None:
+        check_styles(ctx, console, table, spec, widths, nt, body, row_cells, row_pos, real_answer.segments)
+
+
+def char_styles(segments):
+    """per line: [(character, style)] of the non-control segments"""
+    lines = [[]]
+    for sg in segments:
+        if sg.is_control:
+            continue
+        for i, part in enumerate(sg.text.split("\n")):
+            if i:
+                lines.append([])
+            lines[-1].extend((ch, sg.style) for ch in part)
+    if lines and not lines[-1]:
+        lines.pop()
+    return lines
+
+
+def check_styles(ctx, console, table, spec, widths, nt, body, row_cells, row_pos, segments):
+    """The style every printed character must carry, re-derived from the documented composition (table.py `_render`):
+      borders / separators : table.style + border_style   (a whitespace divider: the row's background + that)
+      a cell's characters  : table.style + row style + (header_style|style|footer_style of table + of column) + the segment's own style
+      blank lines filling a shorter cell up to the row height : table.style + row style
+      row style            : null for header / footer rows, else row_styles[i % n] + the row's own style
+    compared character by character with the real segments (segmentation itself is not compared)."""
+    from rich.style import Style
+
+    null = Style.null()
+    gs = console.get_style
+    table_style = gs(table.style or "")
+    border_style = table_style + gs(table.border_style or "")
+    actual = char_styles(segments)
+    edge = 1 if (table.box is not None and table.show_edge) else 0
+    div = 1 if table.box is not None else 0
+    nrows = len(row_cells)
+
+    def same(a, b):
+        return (a or null) == (b or null)
+
+    def rule_is_blank_cells(line):
+        """a `mid` separator (blank spans between vertical bars) reads exactly like a row of blank cells: not told apart"""
+        p = edge
+        for i, w in enumerate(widths):
+            if i:
+                p += div
+            if any(c != " " for c, _ in line[p:p + w]):
+                return False
+            p += w
+        return True
+
+    in_row = {}
+    for ri, pos in enumerate(row_pos):
+        header_row = ri == 0 and table.show_header
+        footer_row = ri == nrows - 1 and table.show_footer
+        if header_row or footer_row:
+            row_style = null
+        else:
+            idx = ri - 1 if table.show_header else ri
+            row_style = null
+            if table.row_styles:
+                row_style = row_style + gs(table.row_styles[idx % len(table.row_styles)])
+            if table.rows[idx].style is not None:
+                row_style = row_style + gs(table.rows[idx].style)
+        cells_segs = []
+        for ci, (w, r) in enumerate(zip(widths, row_cells[ri])):
+            column = table.columns[ci]
+            # which KIND of cell this is is decided per column by `_get_cells` (a column added after the rows has fewer cells, so
+            # zip(*columns) can pair one column's footer with another column's body cell)
+            n_entries = len(column._cells) + int(table.show_header) + int(table.show_footer)
+            if ri == 0 and table.show_header:
+                own = gs(table.header_style or "") + gs(column.header_style)
+            elif ri == n_entries - 1 and table.show_footer:
+                own = gs(table.footer_style or "") + gs(column.footer_style)
+            else:
+                own = gs(table.style or "") + gs(column.style)
+            cell_style = table_style + row_style + own
+            lines = console.render_lines(r, cell_options(console, table, column, w))
+            cells_segs.append((cell_style, [[(ch, sg.style) for sg in ln if not sg.is_control for ch in sg.text] for ln in lines]))
+        h = max([1] + [len(c[1]) for c in cells_segs])
+        for k in range(h):
+            exp = []
+            line = actual[nt + pos + k]
+            if edge:
+                exp.append(border_style)
+            for ci, (cell_style, lines) in enumerate(cells_segs):
+                if ci and div:
+                    ch = line[len(exp)][0] if len(exp) < len(line) else "x"
+                    exp.append(border_style if ch.strip() else row_style.background_style + border_style)
+                if k < len(lines):
+                    exp.extend((cell_style + st) if st else cell_style for _, st in lines[k])
+                else:
+                    exp.extend([table_style + row_style] * widths[ci])
+            if edge:
+                exp.append(border_style)
+            in_row[pos + k] = True
+            got = [st for _, st in line]
+            ok = len(got) == len(exp) and all(same(a, b) for a, b in zip(got, exp))
+            ncell_chars = sum(len(lines[k]) if k < len(lines) else widths[ci] for ci, (_, lines) in enumerate(cells_segs))
+            blank_cells = sum(1 for c, _ in line if c == " ") >= ncell_chars and all(
+                all(ch == " " for ch, _ in lines[k]) for _, lines in cells_segs if k < len(lines))
+            if not ok and blank_cells:
+                ctx.note("table:styles:blank-line-ambiguous")    # a blank cell line and a blank separator look the same
+                continue
+            if not ok:
+                bad = next((i for i, (a, b) in enumerate(zip(got, exp)) if not same(a, b)), None)
+                ctx.check(False, "cell_styles", spec, f"row {ri} line {k}: character {bad} of {''.join(c for c, _ in line)!r} carries "
+                          f"{got[bad] if bad is not None else '?'!s}, expected {exp[bad] if bad is not None else '?'!s}")
+                return
+    for li in range(len(body)):
+        if li not in in_row:
+            line = actual[nt + li]
+            if all(c == " " for c, _ in line) or rule_is_blank_cells(line):
+                continue
+            if not all(same(st, border_style) for _, st in line):
+                ctx.check(False, "border_styles", spec, f"separator line {''.join(c for c, _ in line)!r} is not in the border style {border_style!s}")
+                return
+    ctx.check(True, "cell_styles", spec, "")
 
 
 def spec_cell_text(spec, table, ci, ri, nrows):
@@ -545,7 +771,7 @@ def spec_cell_text(spec, table, ci, ri, nrows):
     a nested one-column folding table; (None, False) for anything else.
     (zip(*columns) truncates: the ri-th entry of EACH column's own `_get_cells` list)"""
     cs = cell_specs(spec, table, ci)[ri]
-    if cs[0] in ("s", "t"):
+    if cs[0] in ("s", "t", "st", "ctl"):
         return cs[1], False
     if cs[0] == "ntable":
         return " ".join(cs[1]), True
@@ -561,7 +787,7 @@ def spec_text_cells(spec):
         kinds = [c["header"][0], c["footer"][0]]
         if not c.get("late"):
             kinds += [r["cells"][ci][0] for r in spec["rows"] if ci < len(r["cells"])]
-        out.append(all(k in ("s", "t", "none") for k in kinds))
+        out.append(all(k in ("s", "t", "st", "ctl", "none") for k in kinds))
     return out
 
 
@@ -669,9 +895,23 @@ class Bundle:
     def add(self, spec, flags):
         ctx = self.ctx
         avail = spec["avail"]
-        console = make_console(avail)
+        console = make_console(avail, spec.get("env"))
         table = build_table(spec)
         text, padded, ncols = encode_variant(flags, self.pool, self.console, table, avail, spec)
+        # add_row keeps the table rectangular: every column present when the rows were added (or created by them) holds one cell
+        # per row — a missing cell is "", a surplus cell creates a column back-filled for the earlier rows
+        nlate = sum(1 for c in spec["cols"] if c.get("late"))
+        cols_now = table.columns[: len(table.columns) - nlate] if nlate else table.columns
+        ok = all(len(c._cells) == len(table.rows) for c in cols_now) and len(table.rows) == len(spec["rows"])
+        if ok and not spec.get("has_extra"):
+            for ci, c in enumerate(cols_now):
+                for k, r in enumerate(spec["rows"]):
+                    cs = r["cells"][ci] if ci < len(r["cells"]) else ("none",)
+                    if cs[0] == "s":
+                        ok = ok and c._cells[k] == cs[1]
+                    elif cs[0] == "none":
+                        ok = ok and (c._cells[k] == "" or getattr(c._cells[k], "plain", None) == "")
+        ctx.check(ok, "add_row_rectangular", spec, f"columns hold {[len(c._cells) for c in table.columns]} cells for {len(table.rows)} rows")
         ans, widths, lines = real_answer(console, table, incoming_options(console, spec))
         self.variants.append((text, ans, spec))
         ro = spec.get("render_opts") or {}
